@@ -16,7 +16,7 @@ TRUSTED = ['np.digitize, scipy.sparse.coo_matrix(...).toarray()/sum(axis=0)/mean
            'exactness: integer / dyadic amplitudes, so the full and time-summed outputs are compared with ==; the time-averaged output is '
            'formed by scipy as sum(x * (1/T)) and is compared within 1e-9 * max|weight| (exact when T is a power of two)']
 ASSUMPTIONS = ['edges_weakly_increasing: the theorems assume both edge vectors are non-decreasing (validated for every edge vector '
-               'produced by define_hist_bins in the run, see C10 stream bins)',
+               'produced by define_hist_bins in the run: instance kinds assumption:carrier-edges-not-increasing / am-edges-not-increasing)',
                'amplitudes are finite']
 RULE = ('exhaustive: every assignment of the edge-hitting alphabets {below, negative, each edge, each bin interior, above, NaN} of the '
         'carrier bin set to the T*M first-level samples and of the AM bin set to the T*M*K second-level samples, for (T,M,K) in '
